@@ -93,7 +93,7 @@ func concReaderJobs(tier string) []*Job {
 		ks = []int{1, 2, 3, 4}
 	}
 	rp := func(num, k, mode, dmg, cut, reuse, legacy, bc, cc int) map[string]int {
-		return P("num", num, "k", k, "mode", mode, "dmg", dmg, "cut", cut, "handler", 1, "reuse", reuse, "legacy", legacy, "bc", bc, "cc", cc)
+		return P("num", num, "k", k, "mode", mode, "dmg", dmg, "cut", cut, "handler", 1, "reuse", reuse, "legacy", legacy, "bc", bc, "cc", cc, "wfail", -1)
 	}
 	for _, num := range nums {
 		for _, k := range ks {
@@ -136,6 +136,16 @@ func concReaderJobs(tier string) []*Job {
 			}
 			jobs = append(jobs, cmk("H_conc_r", dd, rp(2, 2, mode, dmg, 24, 1, 0, 1, 1)))
 		}
+	}
+	// WriteTo into a destination that fails at call 0..2, then Reset and reuse
+	for wfail := 0; wfail <= 2; wfail++ {
+		dd := 1
+		if tier == "thorough" {
+			dd = 2
+		}
+		p := rp(2, 3, 2, 0, 0, 1, 0, 1, 1)
+		p["wfail"] = wfail
+		jobs = append(jobs, cmk("H_conc_r", dd, p))
 	}
 	// a legacy frame: the Reader silently falls back to sequential operation
 	jobs = append(jobs, cmk("H_conc_r", 1, rp(2, 1, 0, 0, 0, 1, 1, 0, 0)))
@@ -195,7 +205,7 @@ func init() {
 				fmt.Sprintf("Writer with ConcurrencyOption in {%s}, 64 KiB blocks, block/content checksum on/off, on-block-done callback installed; call sequences: Write Close | Write Flush Write Close | Write Flush Close | Write Close Reset Write Close | Write Close Close | ReadFrom Close | Write ReadFrom Close | Flush Close | Write Flush Write Flush Write Close | Write Flush Reset Write Close | Write Reset Write Close | Write Close Write Close | Write(64 KiB + 20) Close; chunks of 20 and 10 concrete bytes", nums),
 				fmt.Sprintf("every schedule with at most %d delays (writer faults and reuse: fewer, see job ids ...-dN) of the main goroutine, the ordering goroutine and the per-block goroutines", d),
 				"writer faults: the sink failing at call 0..5 (0..7 for three blocks), the ReadFrom source failing at call 0..1",
-				fmt.Sprintf("Reader with ConcurrencyOption in {%s} over frames of 1..3 (thorough 4) small blocks made by the sequential Writer; Read with 5-byte and 64 KiB buffers, WriteTo; truncation / byte flip at 10 (thorough: every) position(s) of the 2-block frame, source failing at call 0..7; Reset onto an intact frame after a clean end and after an error; legacy frame (sequential fallback); every sequence of 3 (thorough 4) calls of {Read small/big/empty, WriteTo, Size, Reset} including Reset before the end of the stream", nums),
+				fmt.Sprintf("Reader with ConcurrencyOption in {%s} over frames of 1..3 (thorough 4) small blocks made by the sequential Writer; Read with 5-byte and 64 KiB buffers, WriteTo; truncation / byte flip at 10 (thorough: every) position(s) of the 2-block frame, source failing at call 0..7; Reset onto an intact frame after a clean end, after an error and after a WriteTo whose destination failed at call 0..2; legacy frame (sequential fallback); every sequence of 3 (thorough 4) calls of {Read small/big/empty, WriteTo, Size, Reset} including Reset before the end of the stream", nums),
 				"hostile streams: 4..9 (thorough ..10) symbolic bytes after a valid header (and other H_stream shapes) read by a concurrent Reader, at most 1 delay",
 				"obligations on every explored run: no data race (happens-before), no access to a pooled buffer, no deadlock, every call returns, nothing left alive after Close / end / error once runnable goroutines have run, no callback after Close / end, blocks in submission order, frame well-formed for the reference parser",
 			}
